@@ -18,6 +18,11 @@ C == Cases[cid]
 T == C.terms
 Names(S) == { T[i].name : i \in S }
 Obs == { C.obs.toks[i] : i \in DOMAIN C.obs.toks }
+\* In a state that also expects STOP, with consume_input off, the STOP token is offered next to the real ones: the LR parser prefers any
+\* real token (longest match) and takes STOP when nothing matches; GLR pursues STOP as one more lookahead.
+\* STOP behaves like a matching candidate of length 0 that is not subject to the priority rule: with lexical disambiguation on, any real
+\* token beats it (longest match); with it off STOP is pursued next to the real tokens (LR: DisambiguationError, GLR: one more fork).
+StopNames(S) == IF C.stop /\ (~C.ld \/ S = {}) THEN S \cup {"STOP"} ELSE S
 
 Clauses ==
   LET ord == SpecOrder(T)
@@ -28,12 +33,12 @@ Clauses ==
       want == IF documented THEN doc ELSE impl
   IN  (IF [ k \in DOMAIN ord |-> T[ord[k]].name ] # C.real_order THEN {"C07:candidate-order"} ELSE {})
  \cup (IF flags # C.real_flags THEN {"C07:finish-flags"} ELSE {})
- \cup (IF documented /\ Names(doc) # Obs THEN {"C07:documented-choice"} ELSE {})
- \cup (IF ~documented /\ Names(impl) # Obs THEN {"C07:marked-choice"} ELSE {})
+ \cup (IF documented /\ StopNames(Names(doc)) # Obs THEN {"C07:documented-choice"} ELSE {})
+ \cup (IF ~documented /\ StopNames(Names(impl)) # Obs THEN {"C07:marked-choice"} ELSE {})
  \cup (IF documented /\ impl # doc THEN {"C07:shortcuts-change-outcome"} ELSE {})
- \cup (IF C.parser = "lr" /\ C.obs.kind # (IF Cardinality(want) = 0 THEN "syntax" ELSE IF Cardinality(want) = 1 THEN "token" ELSE "disamb")
+ \cup (IF C.parser = "lr" /\ C.obs.kind # (LET w == StopNames(Names(want)) IN IF Cardinality(w) = 0 THEN "syntax" ELSE IF w = {"STOP"} THEN "stop" ELSE IF Cardinality(w) = 1 THEN "token" ELSE "disamb")
        THEN {"C07:lr-outcome-kind"} ELSE {})
- \cup (IF C.parser = "glr" /\ C.obs.kind # (IF Cardinality(want) = 0 THEN "syntax" ELSE "forks") THEN {"C07:glr-outcome-kind"} ELSE {})
+ \cup (IF C.parser = "glr" /\ C.obs.kind # (IF StopNames(Names(want)) = {} THEN "syntax" ELSE "forks") THEN {"C07:glr-outcome-kind"} ELSE {})
  \cup (IF C.obs.kind = "token" /\ \E i \in DOMAIN T : T[i].name \in Obs /\ T[i].mlen # C.obs.vlen THEN {"C07:token-length"} ELSE {})
 
 Flags == [matching |-> Cardinality(Matching(T)), chosen |-> Cardinality(Doc(T, C.ld)), unmarked |-> Unmarked(T), wellformed |-> WellFormed(T)]
